@@ -7,6 +7,7 @@
 import DltVerif.Model.Nom
 import DltVerif.Lemmas.Utf8
 import DltVerif.Lemmas.Zts
+import DltVerif.Lemmas.Utf8Spec
 
 namespace Dlt
 
@@ -38,6 +39,25 @@ theorem C19_zts_total (n : Nat) (s : Bytes) :
   · exact Or.inl ⟨_, _, zts_ok n s h⟩
   · obtain ⟨hint, hh, _⟩ := zts_short n s (by omega)
     exact Or.inr ⟨hint, hh⟩
+
+/-- the byte-range table the validator follows (Unicode table 3-7) accepts exactly the
+    strings that are sequences of shortest-form encoded scalar values (RFC 3629, Spec/Zts.lean) -/
+theorem C19_utf8_definition (bs : Bytes) : Utf8.valid bs = Spec.isUtf8 bs := (isUtf8_eq bs).symm
+
+/-- the field parser is the Spec's field (Spec/Zts.lean, written from the property text with
+    the definition-based UTF-8 check and the longest valid prefix found by search) -/
+theorem C19_spec (n : Nat) (s : Bytes) :
+    match Spec.ztsField n s with
+    | .field text rest => zts n s = .ok text rest
+    | .incomplete missing =>
+      ∃ hint, zts n s = .incomplete hint ∧ ∀ k, hint = some k → 1 ≤ k ∧ k ≤ missing := by
+  unfold Spec.ztsField
+  by_cases h : n ≤ s.length
+  · simp only [h, if_true]
+    rw [zts_ok n s h, longestValid_self]
+    rfl
+  · simp only [h, if_false]
+    exact zts_short n s (by omega)
 
 -- non-vacuity: "AB\0C" + invalid byte, size 4, one byte left over
 example : zts 4 [0x41#8, 0x42#8, 0#8, 0x43#8, 0xFF#8] = .ok [0x41#8, 0x42#8] [0xFF#8] := by
